@@ -21,7 +21,7 @@ RULE = ('every builtin exception class (incl. exception groups, OSError family v
         'non-Exception classes arrive as the identical object. non-trivial = class has data beyond the message.')
 ASSUMPTIONS = ['public attributes = dir() minus dunder names, plus args', 'CPython 3.12 builtin exception set']
 WITNESSES = ['same_class_caught', 'traceback_kept', 'user_attribute_kept', 'message_extended', 'baseexception_untouched',
-             'nested_depth3', 'scope_named', 'reference_site']
+             'nested_depth3', 'scope_named', 'reference_site', 'sequence_of_raises']
 
 CURRENT = [None]
 
@@ -110,6 +110,20 @@ class UOs(OSError):
     self.extra = 'x'
 
 
+class UBase(Exception):
+  def __init__(self, msg, level=0):
+    super().__init__(msg)
+    self.level = level
+
+
+class USub(UBase):
+  pass
+
+
+class USubSub(USub):
+  sub_marker = 'subsub'
+
+
 class UKwOnly(Exception):
   def __init__(self, *, code):
     super().__init__('code=%s' % code)
@@ -119,6 +133,7 @@ class UKwOnly(Exception):
 USER = {
     'UExtra': lambda: UExtra('boom'), 'UInitArgs': lambda: UInitArgs(1, 'two'), 'UNewArgs': lambda: UNewArgs(1, 2),
     'USlots': lambda: USlots('m', ['d']), 'UStr': lambda: UStr('s', 1), 'UProp': lambda: UProp(21),
+    'UBase': lambda: UBase('base', 1), 'USub': lambda: USub('sub', 2), 'USubSub': lambda: USubSub('subsub', 3),
     'UMulti': lambda: UMulti('key'), 'UOs': lambda: UOs(errno.EACCES, 'denied', '/x'), 'UKwOnly': lambda: UKwOnly(code=5),
 }
 
@@ -217,14 +232,26 @@ def public_attrs(orig):
 
 
 def run_case(cname, site, depth, res):
-  desc = [cname, site, depth]
   harness.hard_reset()
+  check_one(cname, site, depth, res, [cname, site, depth])
+
+
+def run_seq(names, site, res):
+  """Several exceptions raised one after another in ONE process state (no reset in between): whatever the first
+  raise leaves behind (caches keyed by class, ...) must not change what the later ones deliver."""
+  harness.hard_reset()
+  for i, n in enumerate(names):
+    check_one(n, site, 1 + (i % 2), res, ['seq', list(names), site])
+  res.w('sequence_of_raises')
+
+
+def check_one(cname, site, depth, res, desc):
   orig = all_factories()[cname]()
   CURRENT[0] = orig
   cls = type(orig)
   is_exc = isinstance(orig, Exception)
   attrs = public_attrs(orig)
-  res.case(tuple(desc), len(attrs) > 1 or len(orig.args) > 1)
+  res.case((repr(desc), cname), len(attrs) > 1 or len(orig.args) > 1)
   fn = {1: RAISER, 2: MID, 3: OUTER}[depth]
   names = {1: ['raiser'], 2: ['raiser', 'mid'], 3: ['raiser', 'mid', 'outer']}[depth]
   scope = ''
@@ -310,9 +337,21 @@ def run_case(cname, site, depth, res):
     res.w('reference_site')
 
 
+SEQ_CLASSES = ['UBase', 'USub', 'USubSub', 'UExtra', 'UMulti', 'UOs', 'KeyError', 'LookupError', 'OSError',
+               'FileNotFoundError', 'UStr', 'USlots']
+
+
 def gen(tier):
   for c, s, d in itertools.product(sorted(all_factories()), SITES, DEPTHS):
     yield [c, s, d]
+  for a, b in itertools.permutations(SEQ_CLASSES, 2):
+    yield ['seq', [a, b], 'body']
+  for t in itertools.permutations(['UBase', 'USub', 'USubSub'], 3):
+    for site in SITES:
+      yield ['seq', list(t), site]
+  if tier != 'quick':
+    for t in itertools.permutations(SEQ_CLASSES[:8], 3):
+      yield ['seq', list(t), 'reference']
 
 
 NSH = 16
@@ -328,7 +367,10 @@ def run_shard(i, tier):
     if n % NSH != i:
       continue
     try:
-      run_case(c[0], c[1], c[2], res)
+      if c[0] == 'seq':
+        run_seq(c[1], c[2], res)
+      else:
+        run_case(c[0], c[1], c[2], res)
     except Exception:  # pylint: disable=broad-except
       import traceback
       res.extra['harness_error'] = traceback.format_exc() + '\ncase=%r' % (c,)
@@ -341,6 +383,9 @@ def run_shard(i, tier):
 
 def replay(c):
   res = core.Result()
-  run_case(c[0], c[1], c[2], res)
+  if c[0] == 'seq':
+    run_seq(c[1], c[2], res)
+  else:
+    run_case(c[0], c[1], c[2], res)
   harness.hard_reset()
   return res
